@@ -21,12 +21,15 @@ CHECKS: dict[str, dict] = {
         ref="5-C13",
     ),
     "C14": dict(
-        engine="spec/FindAll.tla, spec/Regex.tla, spec/RegexCases.tla, spec/MatcherTrace.tla, spec/HeaderCases.tla, spec/HeaderTrace.tla, spec/AutomatonSem.tla",
+        engine="spec/FindAll.tla, spec/Regex.tla, spec/RegexCases.tla, spec/MatcherTrace.tla, spec/HeaderCases.tla, spec/HeaderTrace.tla, spec/AutomatonSem.tla, spec/NestedSearch.tla, spec/NestedCases.tla, spec/NestedSearchTrace.tla",
         text="TLC checks the find_all loop as coded (FindAll.tla: one attempt at a time, leftmost first) clause by clause against the reference "
              "search semantics of Regex.tla for every non-nullable pattern up to N items x every word up to K; every (pattern, word) is replayed into the real "
              "find_all and every result that differs from the reference result is judged clause by clause by TLC (MatcherTrace.tla), as are random larger "
              "patterns; the built-in header shapes are covered by enumerating all token-class sequences over the header automata extracted from the running "
-             "code (HeaderCases.tla) with BalancedEnd, replayed with concrete tokens and judged by HeaderTrace.tla. ",
+             "code (HeaderCases.tla) with BalancedEnd, replayed with concrete tokens and judged by HeaderTrace.tla; the header search above find_all "
+             "(get_headers: candidates, followed_by, search inside rejected candidates) is modelled as coded in NestedSearch.tla (sound, sorted, disjoint, equal to its "
+             "recursive definition, complete, terminating), every generated (pattern, followed_by, word) of NestedCases.tla is replayed into the real get_headers and "
+             "differing or random calls are judged by NestedSearchTrace.tla.",
         note="Non-nullable patterns; letters are disjoint Identity predicates; header automata and predicate tables are extracted from the live code "
              "(predicates depend on a token only through kind/value and one nesting counter). " + BASE_NOTE,
         technique="TLA+ model checked by TLC + exhaustive spec->code replay + TLC trace acceptance",
@@ -189,7 +192,8 @@ CHECKS: dict[str, dict] = {
              "source x class of check target (root as '.' or absolute, directories of depth 1 / 2 relative and absolute, files by relative path); the harness "
              "expands each class to all its members and runs check_command from the codebase root; TLC judges every run (SelectionTrace.tla): the files check "
              "looks at are exactly the contributing files beneath the target, excluded never, hidden never below a directory, and what it lists for each file "
-             "is exactly what scan measures above 30 lines (names, positions, lengths, decoding).",
+             "is exactly what scan measures above 30 lines (names, positions, lengths, decoding). A second phase judges agreement against the recorded scan of the same "
+             "configuration, which also covers exclusion lists outside the modelled pattern classes (negated patterns).",
         note="Files looked at are observed by wrapping CheckResult.add from the harness; configurations are sampled, targets exhaustive for the sampled configurations. " + BASE_NOTE,
         technique="TLC-enumerated configurations and targets replayed through the real check + TLC trace acceptance against scan",
         ref="5-C12",
